@@ -202,21 +202,38 @@ def run(ctx, b, drv):
                 if ('w' in mode or 'a' in mode) and str(p).startswith(str(cdir)):
                     raise PermissionError(13, 'Permission denied', str(p))
                 return real_open(p, mode, *a, **k)
-            pcache.open = ro_open
-            try:
-                pcache.parser_cache.clear()
-                ctx.count('crash-states')
-                with open(ppath, 'wb') as f:
-                    f.write(orig[:n // 2])
+            # every way of changing the directory fails, not only opening a file for writing
+            real_os = pcache.os
+
+            class RoOs:
+                def __getattr__(self, name):
+                    real = getattr(real_os, name)
+                    if name in ('remove', 'unlink', 'replace', 'rename', 'utime', 'makedirs', 'mkdir', 'rmdir', 'chmod'):
+                        def guarded(p, *a, **k):
+                            targets = [p] + [x for x in a[:1] if isinstance(x, (str, bytes, os.PathLike))]
+                            if any(str(t).startswith(str(cdir)) for t in targets):
+                                raise PermissionError(13, 'Permission denied', str(p))
+                            return real(p, *a, **k)
+                        return guarded
+                    return real
+            for corrupt_name, content in (('truncated', orig[:n // 2]), ('empty', b''), ('garbage', b'\x80\x04junk' * 5), ('intact', orig)):
+                pcache.open = ro_open
+                pcache.os = RoOs()
                 try:
-                    m = parse_cached(g, path, cdir)
-                    if preds.sig_tree(m) != fresh_sig:
-                        ctx.violation('C17:wrong-tree-on-read-only-directory', dict(kind='faults', state='read-only-directory', module=code))
-                except Exception as e:
-                    ctx.violation('C17:parse-raises-on-read-only-directory:%s' % type(e).__name__,
-                                  dict(kind='faults', state='read-only-directory', exception=preds.crash_sig(e), module=code))
-            finally:
-                del pcache.open
+                    pcache.parser_cache.clear()
+                    ctx.count('crash-states')
+                    with open(ppath, 'wb') as f:
+                        f.write(content)
+                    try:
+                        m = parse_cached(g, path, cdir)
+                        if preds.sig_tree(m) != fresh_sig:
+                            ctx.violation('C17:wrong-tree-on-read-only-directory', dict(kind='faults', state='read-only-directory+' + corrupt_name, module=code))
+                    except Exception as e:
+                        ctx.violation('C17:parse-raises-on-read-only-directory:%s' % type(e).__name__,
+                                      dict(kind='faults', state='read-only-directory+' + corrupt_name, exception=preds.crash_sig(e), module=code))
+                finally:
+                    del pcache.open
+                    pcache.os = real_os
         # clean-up keeps entries in use
         cdir2 = Path(root) / 'cache2'
         now = time.time()
